@@ -133,7 +133,7 @@ impl W13 {
             tip.clone(),
             height,
             network,
-            lightning_signer::OrderedMap::new(),
+            std::collections::BTreeMap::new(),
             node_id,
             Arc::new(SimpleValidatorFactory::new()),
             tkeys,
@@ -398,7 +398,7 @@ impl Group for C13 {
     }
     fn gen_case(&self, rng: &mut Rng, tier: Tier) -> Vec<String> {
         let net = if rng.chance(1, 5) { "t" } else { "r" };
-        let height = *rng.pick(&[0u32, 5, 2012, 2013, 2014, 2015, 2015, 4031, 300]);
+        let height = if net == "t" { *rng.pick(&[0u32, 5, 300]) } else { *rng.pick(&[0u32, 5, 2012, 2013, 2014, 2015, 2015, 4031, 300]) };
         let nwin = match rng.below(8) { 0 => 0, 1 => 1, 2 => 97, 3 => 98, 4 => 99, _ => rng.range(2, 6) as usize };
         let nwin = nwin.min(height as usize);
         let zero_tip = rng.chance(1, 6);
@@ -529,6 +529,7 @@ impl Group for C13 {
     fn exec_case(&self, ops: &[String]) -> CaseOut {
         let mut co = CaseOut::default();
         let mut w: Option<W13> = None;
+        let mut pending: Vec<String> = Vec::new(); // set-up lines that must follow `init`
         let mut dead = false;
         let (mut n_ok, mut n_err) = (0, 0);
         let mut rejected_streamed = false;
@@ -544,11 +545,12 @@ impl Group for C13 {
                 let (nw, lines) = W13::new(t[0], t[1].parse().unwrap(), t[2].parse().unwrap(), t[3].parse().unwrap(), t[4] == "1", t[5] == "1", &trusted);
                 assert_eq!(lines[0], op.split(" | ").next().unwrap(), "stale init line");
                 w = Some(nw);
+                pending = vec![lines[2].clone(), lines[1].clone()];
                 co.out.push("ok".into());
                 continue;
             }
-            if op.starts_with("window") || op.starts_with("listener ") {
-                assert!(w.is_some(), "init first");
+            if let Some(expect) = pending.pop() {
+                assert_eq!(expect, op.split(" | ").next().unwrap(), "malformed case: set-up line missing");
                 co.out.push("ok".into());
                 continue;
             }
